@@ -86,7 +86,7 @@ func init() {
 	vx.Register(&vx.Prop{
 		ID:    "C08",
 		Level: "model_checking",
-		Rule: "explicit exploration of call histories: all sequences of length <=3 (quick) / <=4 (thorough) over a pool of 37 calls (Encode of a File as NewFile returns it; Decode of big-endian records with narrow time and coordinate fields; Encode of an activity with 1100 records; two course files with 1500 distinct equally long names each; Decode of an activity with 1100 records and of one without any; two Encode calls with strings longer than the profile length; two calls into the checksum package alone; one Decode whose option value is shared by every execution of the call in the process; two calls that stop inside the header; near-twin calls that differ only in the seconds of a local-time zone offset; Decode of two activity streams with accumulating component fields, of a settings file, of a corrupt file, with all options; DecodeChained; CheckIntegrity; Encode of two API-built Files with union definitions in both byte orders and of a decoded File; DecodeHeaderAndFileID; Decode of a stream whose compressed timestamps precede any reference; two Encode calls that fail part-way; Encode of long arrays in a message slice; Decode of two activity files in which every held message type is fully populated; Decode with all options of unknown items whose numbers collide modulo 256); each result includes a digest of the profile tables, every history executed in its own fresh process. " +
+		Rule: "explicit exploration of call histories: all sequences of length <=3 (quick) / <=4 (thorough) over a pool of 39 calls (Decode of an activity with 1500 distinct definitions; Decode of an activity with 30000 records; Encode of a File as NewFile returns it; Decode of big-endian records with narrow time and coordinate fields; Encode of an activity with 1100 records; two course files with 1500 distinct equally long names each; Decode of an activity with 1100 records and of one without any; two Encode calls with strings longer than the profile length; two calls into the checksum package alone; one Decode whose option value is shared by every execution of the call in the process; two calls that stop inside the header; near-twin calls that differ only in the seconds of a local-time zone offset; Decode of two activity streams with accumulating component fields, of a settings file, of a corrupt file, with all options; DecodeChained; CheckIntegrity; Encode of two API-built Files with union definitions in both byte orders and of a decoded File; DecodeHeaderAndFileID; Decode of a stream whose compressed timestamps precede any reference; two Encode calls that fail part-way; Encode of long arrays in a message slice; Decode of two activity files in which every held message type is fully populated; Decode with all options of unknown items whose numbers collide modulo 256); the 30000-record call (quick tier: every call marked long) takes part in histories of length <= 2 only; each result includes a digest of the profile tables, every history executed in its own fresh process. " +
 			"Oracle: the result at every position (canonical dump / bytes / error) equals the result of the same call made first in a fresh process; each solo call repeated in 6 fresh processes — under other time zones, processor counts, garbage-collector pace, unrelated environment variables and a second later — must agree with itself. " +
 			"states = distinct behavioural states (vector of results of all one-step extensions of a history prefix); transitions = calls executed; traces = histories",
 		Assumptions: []string{"accumulated distances of records carrying compressed_speed_distance are compared separately and attributed to the listed finding only when a shadow of the package-level accumulator predicts them exactly"},
@@ -168,6 +168,15 @@ func runC08(w *vx.W) {
 		}
 		if w.Expired("histories") {
 			return false
+		}
+		if len(word) >= 3 {
+			for _, o := range word {
+				if pool[o].Huge || (w.Quick() && pool[o].Long) {
+					// the 30000-record call takes part in histories of length <= 2; in the quick tier so do the other
+					// long calls (1100 records, 1500 names)
+					return true
+				}
+			}
 		}
 		ops := append([]int{}, word...)
 		res, err := c08RunHistory(ops)
